@@ -1130,7 +1130,14 @@ class Evaluator:
         parts = []
         for op, r in zip(e.ops, e.comparators):
             right = self.expr(r, fr)
-            parts.append(("cmp", CMPOPS.get(type(op), "?"), left, right))
+            opn = CMPOPS.get(type(op), "?")
+            # `1 == n` is `n == 1`, `scan_p == primitive` is `primitive == scan_p`: symmetric comparisons carry the constant / the plain
+            # name on the right (both orders give the same term)
+            lit = lambda t_: t_[0] in ("const", "name") or (t_[0] in ("tuple", "list") and all(x_[0] == "const" for x_ in t_[1]))
+            if opn in ("==", "!=") and len(e.ops) == 1 and lit(left) and not lit(right):
+                parts.append(("cmp", opn, right, left))
+            else:
+                parts.append(("cmp", opn, left, right))
             left = right
         if len(parts) == 1:
             p = parts[0]
